@@ -223,6 +223,9 @@ Named == {1, 2, 3}
 LLit(v) == [e |-> "lit", v |-> v]
 LCall(m, a, args) == [e |-> "call", m |-> m, a |-> a, args |-> args]
 LGet(a, i) == [e |-> "get", a |-> a, i |-> i]
+\* a[i].m(args): a method invoked on an array that lives inside the array a.  The receiver is the array
+\* that a[i] denotes when the call expression is entered, whatever the arguments do to a afterwards
+LCallAt(m, a, i, args) == [e |-> "callat", m |-> m, a |-> a, i |-> i, args |-> args]
 LMiss == [e |-> "miss"]                                    \* m.nope on an object m that has no such member
 SExpr(x) == [op |-> "expr", x |-> x]                       \* print the value of x
 SSet(a, i, v) == [op |-> "set", a |-> a, i |-> i, v |-> v]  \* a[i] = v
@@ -236,6 +239,12 @@ LUpd(s, h2, stl2) == [s EXCEPT !.h = h2, !.stale = stl2]
 ER(s, res, status) == [s |-> s, res |-> res, status |-> status]
 LenChanged(s, id, h2) ==
   IF Len(h2[id].items) # Len(s.h[id].items) /\ id \in s.aliased THEN s.stale \cup {id} ELSE s.stale
+
+\* the arrays reachable from a value in a heap of arrays
+RECURSIVE ReachArr(_, _, _)
+ReachArr(h, v, fuel) ==
+  IF v.t # "arr" \/ fuel = 0 THEN {}
+  ELSE {v.id} \cup UNION {ReachArr(h, h[v.id].items[i], fuel - 1) : i \in 1..Len(h[v.id].items)}
 
 \* apply method m of array id with argument arg (Null when it takes none)
 Method(s, m, id, arg, dev) ==
@@ -259,6 +268,17 @@ Method(s, m, id, arg, dev) ==
          ELSE LET r == ListSort(s.h, id) IN
               IF r.status = "open" /\ dev THEN ER(s, Null, "wild") ELSE fin(r)
 
+\* the receiver of a[i].m(..): the container that a[i] holds now
+RecvAt(s, a, i) ==
+  LET items == s.h[Id(a)].items
+      j == Norm(Len(items), i)
+  IN IF j < 0 THEN [st |-> "error"]                                   \* before the start
+     ELSE IF j >= Len(items) THEN [st |-> "open"]                     \* a method of null: not this property's
+     ELSE IF items[j + 1].t # "arr" THEN [st |-> "open"]              \* a method of a scalar: C16's
+     ELSE [st |-> "ok", id |-> items[j + 1].id]
+\* an array that is the value of an element read (a[i] as an argument) is from then on held twice
+ArgAlias(s, x, v) == IF x.e = "get" /\ v.t = "arr" THEN [s EXCEPT !.aliased = @ \cup {v.id}] ELSE s
+
 \* intended semantics: every call acts on the array it was invoked on
 RECURSIVE Eval(_, _)
 Eval(s, e) ==
@@ -271,7 +291,16 @@ Eval(s, e) ==
     [] e.e = "call" ->
          IF e.args = <<>> THEN Method(s, e.m, Id(e.a), Null, FALSE)
          ELSE LET ra == Eval(s, e.args[1]) IN
-              IF ra.status # "ok" THEN ra ELSE Method(ra.s, e.m, Id(e.a), ra.res, FALSE)
+              IF ra.status # "ok" THEN ra ELSE Method(ArgAlias(ra.s, e.args[1], ra.res), e.m, Id(e.a), ra.res, FALSE)
+    [] e.e = "callat" ->
+         \* the receiver is resolved first, then the arguments are evaluated (left to right)
+         LET rc == RecvAt(s, e.a, e.i) IN
+         IF rc.st # "ok" THEN ER(s, Null, rc.st)
+         ELSE IF e.args = <<>> THEN Method(s, e.m, rc.id, Null, FALSE)
+         ELSE LET ra == Eval(s, e.args[1]) IN
+              IF ra.status # "ok" THEN ra
+              ELSE IF ra.res.t = "arr" /\ rc.id \in ReachArr(ra.s.h, ra.res, 6) THEN ER(s, Null, "open")   \* a cycle: C17's
+              ELSE Method(ArgAlias(ra.s, e.args[1], ra.res), e.m, rc.id, ra.res, FALSE)
 
 \* deviation shared-receiver: last[m] = the array on which method m was looked up last
 RECURSIVE EvalD(_, _, _)
@@ -287,7 +316,16 @@ EvalD(s, e, last) ==
          IF e.args = <<>> THEN [r |-> Method(s, e.m, l1[e.m], Null, TRUE), last |-> l1]
          ELSE LET ra == EvalD(s, e.args[1], l1) IN
               IF ra.r.status # "ok" THEN ra
-              ELSE [r |-> Method(ra.r.s, e.m, ra.last[e.m], ra.r.res, TRUE), last |-> ra.last]
+              ELSE [r |-> Method(ArgAlias(ra.r.s, e.args[1], ra.r.res), e.m, ra.last[e.m], ra.r.res, TRUE), last |-> ra.last]
+    [] e.e = "callat" ->
+         LET rc == RecvAt(s, e.a, e.i) IN
+         IF rc.st # "ok" THEN [r |-> ER(s, Null, rc.st), last |-> last]
+         ELSE LET l1 == [last EXCEPT ![e.m] = rc.id] IN
+         IF e.args = <<>> THEN [r |-> Method(s, e.m, l1[e.m], Null, TRUE), last |-> l1]
+         ELSE LET ra == EvalD(s, e.args[1], l1) IN
+              IF ra.r.status # "ok" THEN ra
+              ELSE IF ra.r.res.t = "arr" /\ ra.last[e.m] \in ReachArr(ra.r.s.h, ra.r.res, 6) THEN [r |-> ER(s, Null, "wild"), last |-> ra.last]
+              ELSE [r |-> Method(ArgAlias(ra.r.s, e.args[1], ra.r.res), e.m, ra.last[e.m], ra.r.res, TRUE), last |-> ra.last]
 Last0 == [m \in {"push", "pop", "popfirst", "length", "contains", "sort"} |-> 0]
 
 Exec(s, st, dev) ==
@@ -317,7 +355,7 @@ LTree(s, v, top, fuel) ==
      ELSE LET items == s.h[v.id].items IN [t |-> "arr", items |-> [i \in 1..Len(items) |-> LTree(s, items[i], FALSE, fuel - 1)]]
   ELSE v
 \* the result of push is the receiver itself; an array returned by pop / popfirst / a[i] is a stored copy
-ResIsReceiver(st) == st.op = "expr" /\ st.x.e = "call" /\ st.x.m = "push"
+ResIsReceiver(st) == st.op = "expr" /\ st.x.e \in {"call", "callat"} /\ st.x.m = "push"
 LExpect(s, st, res, status, n) ==
   IF status # "ok" THEN [st |-> status]
   ELSE [st |-> "ok", res |-> LTree(s, res, ResIsReceiver(st), 5),
